@@ -48,6 +48,11 @@ type Loader struct {
 	visitedRefs map[string]struct{}
 	visitedPath []string
 	backtrack   map[string][]func(value any)
+
+	// a reference that was waited for by other references and turned out to reach no object (a loop of references)
+	refLoop string
+	// set by resolvePathItemRef on return: the path item is a reference still waiting for its object
+	pathItemWaiting bool
 }
 
 // NewLoader returns an empty Loader
@@ -62,6 +67,7 @@ func (loader *Loader) resetVisitedPathItemRefs() {
 	loader.visitedRefs = make(map[string]struct{})
 	loader.visitedPath = nil
 	loader.backtrack = make(map[string][]func(value any))
+	loader.refLoop = ""
 }
 
 // LoadFromURI loads a spec from a remote URL
@@ -197,6 +203,11 @@ func (loader *Loader) ResolveRefsIn(doc *T, location *url.URL) (err error) {
 	if loader.visitedPathItemRefs == nil {
 		loader.resetVisitedPathItemRefs()
 	}
+	defer func() {
+		if err == nil && loader.refLoop != "" {
+			err = fmt.Errorf("reference %q is part of a loop of references that reaches no object", loader.refLoop)
+		}
+	}()
 
 	if components := doc.Components; components != nil {
 		for _, name := range componentNames(components.Headers) {
@@ -344,10 +355,16 @@ func (loader *Loader) visitRef(ref string) {
 }
 
 func (loader *Loader) unvisitRef(ref string, value any) {
+	if rv := reflect.ValueOf(value); value != nil && rv.Kind() == reflect.Ptr && rv.IsNil() {
+		value = nil // a nil *Schema, *Parameter, ...: the reference reached no object
+	}
 	if value != nil {
 		for _, fn := range loader.backtrack[ref] {
 			fn(value)
 		}
+	} else if len(loader.backtrack[ref]) > 0 && loader.refLoop == "" {
+		// other references wait for this one, and it reached no object: they can never be resolved
+		loader.refLoop = ref
 	}
 	delete(loader.visitedRefs, ref)
 	delete(loader.backtrack, ref)
@@ -1222,6 +1239,10 @@ func (loader *Loader) resolvePathItemRef(doc *T, pathItem *PathItem, documentPat
 		return
 	}
 
+	// waiting: the item is a reference that could not be followed to an object yet (it waits for a reference being resolved)
+	waiting := false
+	defer func() { loader.pathItemWaiting = waiting }()
+
 	if ref := pathItem.Ref; ref != "" {
 		if !pathItem.isEmpty() {
 			return
@@ -1229,6 +1250,7 @@ func (loader *Loader) resolvePathItemRef(doc *T, pathItem *PathItem, documentPat
 		if !loader.shouldVisitRef(ref, func(value any) {
 			*pathItem = *value.(*PathItem)
 		}) {
+			waiting = true
 			return nil
 		}
 		loader.visitRef(ref)
@@ -1242,6 +1264,7 @@ func (loader *Loader) resolvePathItemRef(doc *T, pathItem *PathItem, documentPat
 				if err = loader.resolvePathItemRef(doc, &p, documentPath); err != nil {
 					return
 				}
+				waiting = loader.pathItemWaiting
 			}
 			*pathItem = p
 		} else {
@@ -1257,10 +1280,16 @@ func (loader *Loader) resolvePathItemRef(doc *T, pathItem *PathItem, documentPat
 				if err = loader.resolvePathItemRef(doc, &resolved, documentPath); err != nil {
 					return
 				}
+				waiting = loader.pathItemWaiting
 			}
 			*pathItem = resolved
 		}
 		pathItem.Ref = ref
+		if waiting {
+			// the chain of references reached no object: whoever waits for this reference waits in vain
+			defer loader.unvisitRef(ref, nil)
+			return
+		}
 		defer loader.unvisitRef(ref, pathItem)
 	}
 
